@@ -49,7 +49,6 @@ Inductive cflav := CPlain | CDeadline | CCause.
 (* ctx.Err() of an ended context *)
 Definition ctx_err (f : cflav) : errk := match f with CDeadline => EDeadline | _ => ECanceled end.
 Definition is_deadline (f : cflav) : bool := match f with CDeadline => true | _ => false end.
-Definition is_cause (f : cflav) : bool := match f with CCause => true | _ => false end.
 
 Inductive apc :=
 | PGate (o : op)                                    (* at the HoldLock entry gate *)
